@@ -548,6 +548,114 @@ pub enum Mode {
     /// `pos` actions that are accepted, followed by one action that the type rejects for
     /// `reason` (index into `reasons(kind)`).
     Rejected { pos: u8, reason: u8 },
+    /// A sequence of 0..=2 accepted actions of *different kinds* (`prefix` indexes
+    /// `prefix_seqs(kind)`) — each authorised for the acting key — followed by one action that
+    /// the type rejects for `reason`. `actor`: 0 a delegate, 1 the non-delegate N (the object's
+    /// author when the plan's root author is N), 2 the stranger S.
+    Rich { prefix: u8, reason: u8, actor: u8 },
+}
+
+/// Kinds of accepted actions a rich prefix is drawn from.
+#[derive(Clone, Copy, Debug, PartialEq, Eq)]
+pub enum PrefixKind {
+    /// Issue / patch `edit` (title).
+    Edit,
+    Lifecycle,
+    Label,
+    Assign,
+    /// Issue `comment`, patch `revision.comment`, thread `comment`.
+    Comment,
+    /// Patch `review`.
+    Review,
+    /// Thread `edit` of the root comment.
+    EditRoot,
+    /// Thread `react` to the root comment.
+    ReactRoot,
+}
+
+impl PrefixKind {
+    fn name(self) -> &'static str {
+        match self {
+            PrefixKind::Edit => "edit",
+            PrefixKind::Lifecycle => "lifecycle",
+            PrefixKind::Label => "label",
+            PrefixKind::Assign => "assign",
+            PrefixKind::Comment => "comment",
+            PrefixKind::Review => "review",
+            PrefixKind::EditRoot => "edit-root-comment",
+            PrefixKind::ReactRoot => "react-root-comment",
+        }
+    }
+    /// Appends to a thread timeline (a second one in the same change trips a `debug_assert`).
+    fn pushes_timeline(self) -> bool {
+        matches!(self, PrefixKind::Comment | PrefixKind::EditRoot | PrefixKind::ReactRoot)
+    }
+}
+
+fn prefix_alphabet(kind: Kind) -> &'static [PrefixKind] {
+    use PrefixKind::*;
+    match kind {
+        Kind::Issue => &[Edit, Lifecycle, Label, Assign, Comment],
+        Kind::Patch => &[Edit, Lifecycle, Label, Assign, Comment, Review],
+        Kind::Thread => &[Comment, EditRoot, ReactRoot],
+        Kind::Identity => &[],
+    }
+}
+
+/// Every sequence of 0, 1 or 2 prefix kinds of the type (with repetition), in a fixed order.
+pub fn prefix_seqs(kind: Kind) -> Vec<Vec<PrefixKind>> {
+    let al = prefix_alphabet(kind);
+    let mut v = vec![vec![]];
+    for a in al {
+        v.push(vec![*a]);
+    }
+    for a in al {
+        for b in al {
+            v.push(vec![*a, *b]);
+        }
+    }
+    v
+}
+
+/// May `actor` perform an action of this kind (by the type's own authorisation rules as stated
+/// in the property's anchors: delegates everything; the object's author title, lifecycle and
+/// comments / reviews; anyone comments / reviews)?
+fn prefix_authorised(kind: Kind, k: PrefixKind, actor: u8, root_author: usize) -> bool {
+    use PrefixKind::*;
+    if kind == Kind::Thread || actor == 0 {
+        return true;
+    }
+    match k {
+        Comment | Review => true,
+        Edit | Lifecycle => actor == 1 && root_author == N,
+        _ => false,
+    }
+}
+
+/// Is the combination part of the space? (authorised prefix; the reason is one this actor is
+/// rejected for; no second timeline push in one change.)
+pub fn rich_admissible(kind: Kind, root_author: usize, prefix: &[PrefixKind], reason: &str, actor: u8) -> bool {
+    if kind == Kind::Identity {
+        return false;
+    }
+    if kind == Kind::Thread && (prefix.len() > 1 || actor != 0) {
+        return false;
+    }
+    if !prefix.iter().all(|k| prefix_authorised(kind, *k, actor, root_author)) {
+        return false;
+    }
+    if prefix.iter().filter(|k| k.pushes_timeline()).count() > 1 {
+        return false;
+    }
+    // `thread::edit` pushes the timeline (behind a debug_assert) before it looks the comment up.
+    if (reason == "comment-edit-missing" || reason == "edit-missing") && prefix.iter().any(|k| k.pushes_timeline()) {
+        return false;
+    }
+    match reason {
+        "label-by-non-delegate" | "assign-by-non-delegate" | "merge-by-non-delegate" => actor == 1,
+        "edit-by-stranger" => actor == 2,
+        _ => actor != 2,
+    }
 }
 
 /// A rejection reason of an object type.
@@ -623,7 +731,36 @@ impl Mode {
             Mode::Valid => "valid".into(),
             Mode::BadSig => "bad-commit-signature".into(),
             Mode::Rejected { pos, reason } => format!("{}@action{}", reasons(kind)[*reason as usize].name, pos + 1),
+            Mode::Rich { prefix, reason, actor } => format!(
+                "{}@after[{}]/by-{}",
+                reasons(kind)[*reason as usize].name,
+                prefix_seqs(kind)[*prefix as usize].iter().map(|k| k.name()).collect::<Vec<_>>().join(","),
+                ["delegate", "non-delegate-N", "stranger"][*actor as usize]
+            ),
         }
+    }
+    /// Number of accepted actions before the rejected one.
+    pub fn prefix_len(&self, kind: Kind) -> usize {
+        match self {
+            Mode::Rejected { pos, .. } => *pos as usize,
+            Mode::Rich { prefix, .. } => prefix_seqs(kind)[*prefix as usize].len(),
+            _ => 0,
+        }
+    }
+    /// Every admissible rich mode of the kind for objects created by `root_author`.
+    pub fn rich_all(kind: Kind, root_author: usize) -> Vec<Mode> {
+        let seqs = prefix_seqs(kind);
+        let mut v = vec![];
+        for (ri, r) in reasons(kind).iter().enumerate() {
+            for actor in 0..3u8 {
+                for (pi, p) in seqs.iter().enumerate() {
+                    if rich_admissible(kind, root_author, p, r.name, actor) {
+                        v.push(Mode::Rich { prefix: pi as u8, reason: ri as u8, actor });
+                    }
+                }
+            }
+        }
+        v
     }
     pub fn is_valid(&self) -> bool {
         matches!(self, Mode::Valid)
@@ -642,9 +779,13 @@ impl Mode {
         match self {
             Mode::Valid => false,
             Mode::BadSig => true,
-            Mode::Rejected { reason, .. } => reasons(kind)[*reason as usize].certain,
+            Mode::Rejected { reason, .. } | Mode::Rich { reason, .. } => reasons(kind)[*reason as usize].certain,
         }
     }
+}
+
+fn default_root_author() -> usize {
+    N
 }
 
 #[derive(Clone, Debug, PartialEq, Eq, serde::Serialize, serde::Deserialize)]
@@ -656,6 +797,9 @@ pub struct Plan {
     pub modes: Vec<Mode>,
     /// Target rank of the ids of the non-root changes (`None`: whatever salt 0 gives).
     pub rank: Option<Vec<usize>>,
+    /// Who created the object: the delegate A or the non-delegate N (ignored for the identity).
+    #[serde(default = "default_root_author")]
+    pub root_author: usize,
 }
 
 #[derive(Clone, Debug)]
@@ -740,8 +884,16 @@ fn render(w: &World, plan: &Plan, i: usize, ids: &[Oid]) -> Rendered {
     let near = parents.iter().copied().filter(|p| *p != 0).max();
     let (pos, reason) = match mode {
         Mode::Rejected { pos, reason } => (pos as usize, Some(reasons(kind)[reason as usize].name)),
+        Mode::Rich { reason, .. } => (usize::MAX, Some(reasons(kind)[reason as usize].name)),
         _ => (usize::MAX, None),
     };
+    // Rich mode: the kinds of the accepted actions and who acts.
+    let rich: Option<(Vec<PrefixKind>, usize)> = match mode {
+        Mode::Rich { prefix, actor, .. } => Some((prefix_seqs(kind)[prefix as usize].clone(), [[A, B][i % 2], N, S][actor as usize])),
+        _ => None,
+    };
+    // The non-delegate N may write title and state only of objects it created.
+    let n_is_author = plan.root_author == N;
     match kind {
         Kind::Issue => {
             use issue::Action as Ac;
@@ -756,6 +908,8 @@ fn render(w: &World, plan: &Plan, i: usize, ids: &[Oid]) -> Rendered {
             ];
             if author != N {
                 ok.push(Ac::Label { labels: BTreeSet::from([label(format!("l{i}"))]) });
+            } else if !n_is_author {
+                ok.clear();
             }
             let third = match near {
                 // Delegates (i % 3 in {0, 1}) redact / edit the comment made by the nearest parent,
@@ -790,14 +944,31 @@ fn render(w: &World, plan: &Plan, i: usize, ids: &[Oid]) -> Rendered {
                         }
                         other => unreachable!("issue reason {other}"),
                     };
-                    let mut prefix: Vec<Ac> = if author == S {
+                    let mut prefix: Vec<Ac> = if let Some((kinds, actor)) = &rich {
+                        author = *actor;
+                        kinds
+                            .iter()
+                            .enumerate()
+                            .map(|(k, kind)| match kind {
+                                PrefixKind::Edit => Ac::Edit { title: format!("title {i}.{k}") },
+                                PrefixKind::Lifecycle => Ac::Lifecycle {
+                                    state: issue::State::Closed { reason: if k == 0 { issue::CloseReason::Solved } else { issue::CloseReason::Other } },
+                                },
+                                PrefixKind::Label => Ac::Label { labels: BTreeSet::from([label(format!("p{i}.{k}"))]) },
+                                PrefixKind::Assign => Ac::Assign { assignees: BTreeSet::from([w.did([B, C][k % 2])]) },
+                                PrefixKind::Comment => Ac::Comment { body: format!("comment {i}"), reply_to: Some(root), embeds: vec![] },
+                                other => unreachable!("issue prefix {other:?}"),
+                            })
+                            .collect()
+                    } else if author == S || (author == N && !n_is_author) {
                         // A stranger may only comment.
-                        vec![Ac::Comment { body: format!("comment {i}"), reply_to: Some(root), embeds: vec![] }]
+                        let mut v = vec![Ac::Comment { body: format!("comment {i}"), reply_to: Some(root), embeds: vec![] }];
+                        v.truncate(pos);
+                        v
                     } else {
                         // Title and state may be written by delegates and by the issue author N.
-                        ok.into_iter().take(2).collect()
+                        ok.into_iter().take(2.min(pos)).collect()
                     };
-                    prefix.truncate(pos);
                     prefix.push(bad);
                     prefix
                 }
@@ -814,6 +985,8 @@ fn render(w: &World, plan: &Plan, i: usize, ids: &[Oid]) -> Rendered {
             ];
             if author != N {
                 ok.push(Ac::Label { labels: BTreeSet::from([label(format!("l{i}"))]) });
+            } else if !n_is_author {
+                ok.clear();
             }
             let third = match i % 4 {
                 1 => Ac::RevisionComment { revision: rev, location: None, body: format!("comment {i}"), reply_to: None, embeds: vec![] },
@@ -862,12 +1035,28 @@ fn render(w: &World, plan: &Plan, i: usize, ids: &[Oid]) -> Rendered {
                         }
                         other => unreachable!("patch reason {other}"),
                     };
-                    let mut prefix: Vec<Ac> = if author == S {
-                        vec![Ac::RevisionComment { revision: rev, location: None, body: format!("comment {i}"), reply_to: None, embeds: vec![] }]
+                    let mut prefix: Vec<Ac> = if let Some((kinds, actor)) = &rich {
+                        author = *actor;
+                        kinds
+                            .iter()
+                            .enumerate()
+                            .map(|(k, kind)| match kind {
+                                PrefixKind::Edit => Ac::Edit { title: format!("title {i}.{k}"), target: patch::MergeTarget::Delegates },
+                                PrefixKind::Lifecycle => Ac::Lifecycle { state: if k == 0 { patch::Lifecycle::Archived } else { patch::Lifecycle::Draft } },
+                                PrefixKind::Label => Ac::Label { labels: BTreeSet::from([label(format!("p{i}.{k}"))]) },
+                                PrefixKind::Assign => Ac::Assign { assignees: BTreeSet::from([w.did([B, C][k % 2])]) },
+                                PrefixKind::Comment => Ac::RevisionComment { revision: rev, location: None, body: format!("comment {i}"), reply_to: None, embeds: vec![] },
+                                PrefixKind::Review => Ac::Review { revision: rev, summary: Some(format!("review {i}.{k}")), verdict: Some(patch::Verdict::Accept), labels: vec![] },
+                                other => unreachable!("patch prefix {other:?}"),
+                            })
+                            .collect()
+                    } else if author == S || (author == N && !n_is_author) {
+                        let mut v = vec![Ac::RevisionComment { revision: rev, location: None, body: format!("comment {i}"), reply_to: None, embeds: vec![] }];
+                        v.truncate(pos);
+                        v
                     } else {
-                        ok.into_iter().take(2).collect()
+                        ok.into_iter().take(2.min(pos)).collect()
                     };
-                    prefix.truncate(pos);
                     prefix.push(bad);
                     prefix
                 }
@@ -896,8 +1085,21 @@ fn render(w: &World, plan: &Plan, i: usize, ids: &[Oid]) -> Rendered {
                         "empty-edit" => Ac::Edit { id: root, body: String::new() },
                         other => unreachable!("thread reason {other}"),
                     };
-                    let mut prefix = vec![Ac::Comment { body: format!("comment {i}"), reply_to: Some(root) }];
-                    prefix.truncate(pos);
+                    let mut prefix: Vec<Ac> = if let Some((kinds, _)) = &rich {
+                        kinds
+                            .iter()
+                            .map(|kind| match kind {
+                                PrefixKind::Comment => Ac::Comment { body: format!("comment {i}"), reply_to: Some(root) },
+                                PrefixKind::EditRoot => Ac::Edit { id: root, body: format!("edit {i}") },
+                                PrefixKind::ReactRoot => Ac::React { to: root, reaction: reaction(), active: true },
+                                other => unreachable!("thread prefix {other:?}"),
+                            })
+                            .collect()
+                    } else {
+                        let mut v = vec![Ac::Comment { body: format!("comment {i}"), reply_to: Some(root) }];
+                        v.truncate(pos);
+                        v
+                    };
                     prefix.push(bad);
                     prefix
                 }
@@ -993,7 +1195,7 @@ fn render(w: &World, plan: &Plan, i: usize, ids: &[Oid]) -> Rendered {
 }
 
 /// The root change of an object of `kind` (the identity root is the repository's own).
-fn root_spec(w: &World, kind: Kind, tag: u32) -> Option<ChangeSpec> {
+fn root_spec(w: &World, kind: Kind, tag: u32, root_author: usize) -> Option<ChangeSpec> {
     let contents = match kind {
         Kind::Issue => vec![
             enc(&issue::Action::Comment { body: "root comment".into(), reply_to: None, embeds: vec![] }),
@@ -1011,7 +1213,7 @@ fn root_spec(w: &World, kind: Kind, tag: u32) -> Option<ChangeSpec> {
         resource: Some(w.identity),
         parents: vec![],
         ts: 0,
-        author: N,
+        author: root_author,
         bad_sig: false,
         contents,
         embeds: vec![],
@@ -1025,7 +1227,7 @@ pub fn build(w: &mut World, plan: &Plan) -> Built {
     let kind = plan.kind;
     let n = plan.shape.n();
     let mut specs = vec![];
-    let root = match root_spec(w, kind, 0) {
+    let root = match root_spec(w, kind, 0, plan.root_author) {
         Some(spec) => {
             let id = w.write(&spec);
             specs.push(spec);
@@ -1111,6 +1313,8 @@ pub fn plan_json(plan: &Plan, built: Option<&Built>) -> Value {
         "modes": plan.modes,
         "mode_labels": plan.modes.iter().map(|m| m.label(plan.kind)).collect::<Vec<_>>(),
         "rank": plan.rank,
+        "root_author": plan.root_author,
+        "root_author_name": ACTORS[plan.root_author],
     });
     if let Some(b) = built {
         v["ids"] = oid_json(&b.ids);
@@ -1132,6 +1336,7 @@ pub fn plan_from_json(v: &Value) -> Option<Plan> {
         ts: serde_json::from_value(v.get("ts")?.clone()).ok()?,
         modes: serde_json::from_value(v.get("modes")?.clone()).ok()?,
         rank: serde_json::from_value(v.get("rank")?.clone()).ok()?,
+        root_author: v.get("root_author").and_then(Value::as_u64).map(|a| a as usize).unwrap_or(N),
     })
 }
 
